@@ -253,6 +253,15 @@ def c01_oracle(sc):
     ex = Expect()
     taint = relink_taint(sc)
     for j, it, b, a in before_after(sc):
+        # (c) "stays true after any later sequence of xvc commands that does not explicitly remove that content":
+        # the object holding the version recorded for a path is still in the cache after any item of these
+        # histories (none of them is `file remove` / `untrack`), also when the command failed or panicked
+        if it[0] in ("track", "carry", "recheck"):
+            for p, rec in b["recs"].items():
+                ad = addr_of(rec, p)
+                if ad and ad in b["objs"] and ad not in a["objs"] and p in a["recs"] and addr_of(a["recs"][p], p) == ad:
+                    bad.append((j, "the committed content of %s (object %s) is no longer in the cache after `%s`" % (p, ad[:24], it[0] + (" --force" if it[1].get("f") else "")),
+                                "relink" if ad in taint[j] else None))
         if a["oc"] == "Panic":
             break
         ex.update(it, b, a)
